@@ -132,13 +132,26 @@ func TestC07(t *testing.T) {
 
 		accounts := []sdk.AccAddress{sender}
 		nSplits := rapid.IntRange(1, 5).Draw(t, "nSplits")
+		// one case in five: all splits (and the delegations between them) happen at one instant and are delivered
+		// once more as ONE transaction, which must leave the same state (transaction window, txmode.go)
+		oneTx := rapid.IntRange(0, 4).Draw(t, "oneTransaction") == 0
+		if oneTx {
+			v.BeginTxWindow()
+		}
 		nontrivial := false
 		classes := map[string]bool{}
 		for i := 0; i < nSplits; i++ {
 			l := fmt.Sprintf("s%d", i)
-			if i > 0 {
+			if i > 0 && !oneTx {
 				// advance some seconds inside the vesting window
 				v.Advance(secNs * rapid.Int64Range(0, dur/int64(nSplits)+1).Draw(t, l+"_adv"))
+			}
+			if i > 0 && oneTx && rapid.Bool().Draw(t, l+"_delegateBetween") {
+				// the first sender stakes some more between two messages of the transaction
+				if bal := v.Bal(sender).AmountOf(Denom); bal.IsPositive() {
+					res := v.Delegate(sender, randBelow(t, l+"_delBetween", bal).AddRaw(1))
+					hist = append(hist, fmt.Sprintf("delegate between two splits ok=%v", res.OK()))
+				}
 			}
 			from := accounts[rapid.IntRange(0, len(accounts)-1).Draw(t, l+"_from")]
 			pre := v.CVA(from)
@@ -341,6 +354,9 @@ func TestC07(t *testing.T) {
 			for _, c := range preCopy.OriginalVesting {
 				classes[fmt.Sprintf("ov_digits_%02d", (len(c.Amount.String())+4)/5*5)] = true
 			}
+		}
+		if oneTx {
+			v.EndTxWindow(t)
 		}
 		if delegated {
 			classes["delegated_vesting"] = true
